@@ -223,7 +223,17 @@ theorem normalise_cases (keep : Bool) (x y : Val N) (zs : List (Val N)) :
 theorem anchored_start (name : String) (rest : List (Node N)) (xs : List (Val N)) :
     startItems (firstStepIsVar (Node.var name :: rest)) (some (.arr xs)) = [some (.arr xs)] ∧
     startItems (firstStepIsVar (Node.name name :: rest)) (some (.arr xs)) = xs.map some := by
-  simp [firstStepIsVar, startItems]
+  simp [firstStepIsVar, startsWithVar, startItems]
+
+/-- … also when the variable carries predicates or an order-by clause (`$[p].a`, `$^(k).a`, `$v[p]^(k)[q].a`):
+    the first step is evaluated once, on the variable's whole value (F39) -/
+theorem anchored_through_sort_and_predicate (name : String) (terms : List (SortDir × Node N))
+    (ps qs : List (Node N)) (rest : List (Node N)) (xs : List (Val N)) :
+    startItems (firstStepIsVar (Node.sort (.var name) terms :: rest)) (some (.arr xs)) = [some (.arr xs)] ∧
+    startItems (firstStepIsVar (Node.predicate (.sort (.predicate (.var name) ps) terms) qs :: rest)) (some (.arr xs))
+      = [some (.arr xs)] ∧
+    startItems (firstStepIsVar (Node.sort (.name name) terms :: rest)) (some (.arr xs)) = xs.map some := by
+  simp [firstStepIsVar, startsWithVar, startItems]
 
 /-- one-level flattening keeps order and keeps constructor results as units -/
 theorem flatten1_append (isCons : Bool) (a b : List (Val N)) :
